@@ -16,7 +16,7 @@ from vlib.runner import Violation, Inconclusive, VERIF
 REPO = os.environ.get("VERIF_REPO") or "/repo"
 
 ID = "C09"
-BUDGET = {"quick": 96, "thorough": 1200}
+BUDGET = {"quick": 96, "thorough": 800}
 CASE_TIMEOUT = {"quick": 400, "thorough": 600}
 ALIASES = ["explicit_euler", "euler", "forward_euler", "forward_explicit_euler", "generalized_rush_larsen", "forward_generalized_rush_larsen", "hybrid_rush_larsen", "rush_larsen"]
 RULE = (
